@@ -580,8 +580,14 @@ def lookupDisc (dv : V) (dmap : List (Nat × Mid)) : Option Mid :=
   | .atom _ id => (dmap.find? (fun e => e.1 == id)).map (·.2)
   | _ => none
 
+/-- `isNilDUInput` (`types/discriminated_union.go`, since /repo a69d756): the untyped nil and a nil POINTER. -/
+def duNil : V → Bool
+  | .nil => true
+  | .ptr _ none => true
+  | _ => false
+
 def parseDU (env : Env) (m : Mods) (disc : Nat) (dmap : List (Nat × Mid)) (opts : List Mid) (v : V) : Res :=
-  if v.isNil && (m.nilable || m.optional) then .ok
+  if duNil v && (m.nilable || m.optional) then .ok
   else match v with
     | .map .str .any es =>
       let es := es.getD []
